@@ -84,14 +84,14 @@ Qed.
 (* the affinity of every column type *)
 Definition affinity_spec (T : coltype) : affinity :=
   match T with
-  | TString _ | TUnicode _ | TDecStr _ _ _ | TEnum _ | TBlob | TPickle | TUuid | TJson => ATEXT
+  | TString _ | TUnicode _ | TDecStr _ _ _ | TEnum _ | TBlob | TPickle | TUuid | TJson | TForeignKeyStr => ATEXT
   | TInt | TTinyInt | TSmallInt | TMediumInt | TBigInt | TForeignKey => AINTEGER
   | TFloat => AREAL
   | TBool | TDateTime | TDate | TTime | TTimestamp | TDecimal _ _ | TCurrency => ANUMERIC
   end.
 Lemma affinity_char T : col_affinity T = affinity_spec T.
 Proof.
-  destruct T as [[n|]|[n|]| | | | | | | | | | | |size prec| |size prec q|vals| | | | | ].
+  destruct T as [[n|]|[n|]| | | | | | | | | | | |size prec| |size prec q|vals| | | | | | ].
   - apply varchar_affinity.
   - reflexivity.
   - apply varchar_affinity.
@@ -111,6 +111,7 @@ Proof.
   - vm_compute. reflexivity.
   - apply varchar_affinity.
   - apply varchar_affinity.
+  - reflexivity.
   - reflexivity.
   - reflexivity.
   - reflexivity.
